@@ -165,7 +165,8 @@ PROPS = {
     "C04": dict(
         pkg="c04", level="fault_enumeration",
         tests=[T("TestC04", Q(45, timeout=400, shrinktime="40s"), Q(250, timeout=1500, shards=16, shrinktime="120s")),
-               T("TestC04Big", Q(4, timeout=400, shrinktime="20s"), Q(12, timeout=1500, shards=8, shrinktime="60s"))],
+               T("TestC04Big", Q(4, timeout=400, shrinktime="20s"), Q(12, timeout=1500, shards=8, shrinktime="60s")),
+               T("TestC04Stall", Q(2, timeout=300, shards=2, shrinktime="1s"), Q(6, timeout=900, shards=8, shrinktime="10s"))],
         rule="rapid generates histories of 1-10 steps (apply batches of 1-4 entries biased to multi-key commands: batches, txns, sequences, range deletes; Sync; clean reopen; install of a snapshot "
              "produced by a donor replica that is 0-3 entries ahead, donor format drawn independently) for both recovery types. For each history a dry run counts the mutating file-system operations T "
              "(create, write, sync, rename, remove, mkdir, link incl. pebble's own), then the history is re-executed once per crash point N in 0..T (all of them; thinned evenly above 400): from operation N on "
